@@ -76,80 +76,128 @@ def SOp.ok (a : SA) : SOp → Prop
   | .pushFrontNode e | .pushBackNode e | .insertNodeAt _ e => e < a.fresh ∧ e ∉ a.seq
   | _ => True
 
-/-- Abstraction relation = the `SList` invariant: `Next`-traversal from `head` = the sequence,
-`tail` = last node reachable from `head`, `len` = chain length (`SInv`); nodes outside the list
-have `next == nil`. -/
-structure SAbs (s : SSt) (a : SA) : Prop where
-  inv   : SInv s a.seq
-  alloc : ∀ x ∈ a.seq, x < a.fresh
-  clean : ∀ n, n ∉ a.seq → s.next.get n = none
-  val   : ∀ n, s.val.get n = a.val n
-  fresh : s.fresh = a.fresh
+/-- Allowed calls when other lists share the node store (`O` = "is a node of another list"):
+a node handed to a node form is in no list at all. -/
+def SOp.okO (O : Nat → Prop) (a : SA) : SOp → Prop
+  | .pushFrontNode e | .pushBackNode e | .insertNodeAt _ e => e < a.fresh ∧ e ∉ a.seq ∧ ¬ O e
+  | .next e => ¬ O e
+  | _ => True
+
+/-- Abstraction relation = the `SList` invariant, for one list of a family sharing a node store;
+`O n` says that `n` is a node of ANOTHER list: `Next`-traversal from `head` = the sequence, `tail` =
+last node reachable from `head`, `len` = chain length (`SInv`); the list shares no node with the
+others; nodes outside every list have `next == nil`. -/
+structure SAbsO (O : Nat → Prop) (s : SSt) (a : SA) : Prop where
+  inv    : SInv s a.seq
+  alloc  : ∀ x ∈ a.seq, x < a.fresh
+  clean  : ∀ n, n ∉ a.seq → ¬ O n → s.next.get n = none
+  disj   : ∀ x ∈ a.seq, ¬ O x
+  oalloc : ∀ n, O n → n < a.fresh
+  val    : ∀ n, s.val.get n = a.val n
+  fresh  : s.fresh = a.fresh
+
+/-- One list alone: no other list. -/
+abbrev SAbs (s : SSt) (a : SA) : Prop := SAbsO (fun _ => False) s a
 
 theorem sabs_zero : SAbs SSt.zero SA.zero :=
-  ⟨sinv_zero, by simp [SA.zero], fun n _ => PM.get_empty n, fun n => IM.get_empty n, rfl⟩
+  ⟨sinv_zero, by simp [SA.zero], fun n _ _ => PM.get_empty n, fun _ _ h => h, fun _ h => h.elim,
+    fun n => IM.get_empty n, rfl⟩
 
 /-! ### building blocks -/
 
-theorem sabs_alloc {s : SSt} {a : SA} (h : SAbs s a) (v : Int) :
-    SAbs (s.alloc v).1 (a.allocV v) ∧ (s.alloc v).2 = a.fresh := by
-  refine ⟨⟨⟨h.inv.chain, h.inv.tail, h.inv.len, h.inv.nodup⟩, fun x hx => ?_, h.clean, fun n => ?_, ?_⟩,
-    h.fresh⟩
+section
+variable {O : Nat → Prop}
+
+theorem sabs_alloc {s : SSt} {a : SA} (h : SAbsO O s a) (v : Int) :
+    SAbsO O (s.alloc v).1 (a.allocV v) ∧ (s.alloc v).2 = a.fresh ∧ (s.alloc v).1.next = s.next := by
+  refine ⟨⟨⟨h.inv.chain, h.inv.tail, h.inv.len, h.inv.nodup⟩, fun x hx => ?_, h.clean, h.disj,
+    fun n hn => ?_, fun n => ?_, ?_⟩, h.fresh, rfl⟩
   · have := h.alloc x hx; simp only [SA.allocV]; omega
+  · have := h.oalloc n hn; simp only [SA.allocV]; omega
   · simp only [SSt.alloc, SA.allocV, IM.get_set, h.val n, h.fresh]
   · simp only [SSt.alloc, SA.allocV, h.fresh]
 
-theorem sabs_pushFrontNode {s : SSt} {a : SA} (h : SAbs s a) {e : Nat} (he : e < a.fresh)
-    (hm : e ∉ a.seq) : SAbs (s.pushFrontNode e) { a with seq := e :: a.seq } := by
+theorem sabs_pushFrontNode {s : SSt} {a : SA} (h : SAbsO O s a) {e : Nat} (he : e < a.fresh)
+    (hm : e ∉ a.seq) (heO : ¬ O e) :
+    SAbsO O (s.pushFrontNode e) { a with seq := e :: a.seq } ∧
+      ∀ n, O n → (s.pushFrontNode e).next.get n = s.next.get n := by
   have f := pushFrontNode_frame s e
-  refine ⟨pushFrontNode_sinv e h.inv hm, fun x hx => ?_, fun n hn => ?_, fun n => ?_, ?_⟩
+  refine ⟨⟨pushFrontNode_sinv e h.inv hm, fun x hx => ?_, fun n hn hO => ?_, fun x hx => ?_, h.oalloc,
+    fun n => ?_, ?_⟩, fun n hn => f.2.2 n (fun hh => heO (hh ▸ hn))⟩
   · simp only [List.mem_cons] at hx
     rcases hx with rfl | hx
     · exact he
     · exact h.alloc x hx
   · simp only [List.mem_cons, not_or] at hn
-    rw [f.2.2 n hn.1]; exact h.clean n hn.2
+    rw [f.2.2 n hn.1]; exact h.clean n hn.2 hO
+  · simp only [List.mem_cons] at hx
+    rcases hx with rfl | hx
+    · exact heO
+    · exact h.disj x hx
   · rw [f.1]; exact h.val n
   · rw [f.2.1]; exact h.fresh
 
-theorem sabs_insertNodeAt {s : SSt} {a : SA} (h : SAbs s a) (i : Int) {e : Nat} (he : e < a.fresh)
-    (hm : e ∉ a.seq) :
-    ∃ s', s.insertNodeAt i e = some s' ∧ SAbs s' { a with seq := insAt i e a.seq } := by
-  obtain ⟨s', r1, r2, r3, r4, r5⟩ := insertNodeAt_sinv i e h.inv hm (h.clean e hm)
-  refine ⟨s', r1, ⟨r2, fun x hx => ?_, fun n hn => ?_, fun n => by rw [r3]; exact h.val n,
-    by rw [r4]; exact h.fresh⟩⟩
-  · simp only [insAt, List.mem_append, List.mem_cons] at hx
+theorem sabs_insertNodeAt {s : SSt} {a : SA} (h : SAbsO O s a) (i : Int) {e : Nat} (he : e < a.fresh)
+    (hm : e ∉ a.seq) (heO : ¬ O e) :
+    ∃ s', s.insertNodeAt i e = some s' ∧ SAbsO O s' { a with seq := insAt i e a.seq } ∧
+      ∀ n, O n → s'.next.get n = s.next.get n := by
+  obtain ⟨s', r1, r2, r3, r4, r5⟩ := insertNodeAt_sinv i e h.inv hm (h.clean e hm heO)
+  have hsub : ∀ x, x ∈ insAt i e a.seq → x = e ∨ x ∈ a.seq := by
+    intro x hx
+    simp only [insAt, List.mem_append, List.mem_cons] at hx
     rcases hx with hx | rfl | hx
-    · exact h.alloc x (List.mem_of_mem_take hx)
+    · exact Or.inr (List.mem_of_mem_take hx)
+    · exact Or.inl rfl
+    · exact Or.inr (List.mem_of_mem_drop hx)
+  have hsup : ∀ x, x = e ∨ x ∈ a.seq → x ∈ insAt i e a.seq := by
+    intro x hx
+    simp only [insAt, List.mem_append, List.mem_cons]
+    rcases hx with rfl | hh
+    · exact Or.inr (Or.inl rfl)
+    · have := List.take_append_drop i.toNat a.seq
+      rw [← this] at hh
+      simp only [List.mem_append] at hh
+      rcases hh with hh | hh
+      · exact Or.inl hh
+      · exact Or.inr (Or.inr hh)
+  refine ⟨s', r1, ⟨r2, fun x hx => ?_, fun n hn hO => ?_, fun x hx => ?_, h.oalloc,
+    fun n => by rw [r3]; exact h.val n, by rw [r4]; exact h.fresh⟩, fun n hn => ?_⟩
+  · rcases hsub x hx with rfl | hx
     · exact he
-    · exact h.alloc x (List.mem_of_mem_drop hx)
-  · have hn' : n ∉ e :: a.seq := by
-      intro hh
-      apply hn
-      simp only [List.mem_cons] at hh
-      simp only [insAt, List.mem_append, List.mem_cons]
-      rcases hh with rfl | hh
-      · exact Or.inr (Or.inl rfl)
-      · have := List.take_append_drop i.toNat a.seq
-        rw [← this] at hh
-        simp only [List.mem_append] at hh
-        rcases hh with hh | hh
-        · exact Or.inl hh
-        · exact Or.inr (Or.inr hh)
+    · exact h.alloc x hx
+  · have hn' : n ∉ e :: a.seq := fun hh => hn (hsup n (by simpa using hh))
     rw [r5 n hn']
-    exact h.clean n (fun hh => hn' (by simp [hh]))
+    exact h.clean n (fun hh => hn' (by simp [hh])) hO
+  · rcases hsub x hx with rfl | hx
+    · exact heO
+    · exact h.disj x hx
+  · refine r5 n (fun hh => ?_)
+    simp only [List.mem_cons] at hh
+    rcases hh with rfl | hh
+    · exact heO hn
+    · exact h.disj n hh hn
 
-theorem sabs_pushBackNode {s : SSt} {a : SA} (h : SAbs s a) {e : Nat} (he : e < a.fresh)
-    (hm : e ∉ a.seq) :
-    ∃ s', s.pushBackNode e = some s' ∧ SAbs s' { a with seq := a.seq ++ [e] } := by
-  obtain ⟨s', r1, r2, r3, r4, r5⟩ := pushBackNode_sinv e h.inv hm (h.clean e hm)
-  refine ⟨s', r1, ⟨r2, fun x hx => ?_, fun n hn => ?_, fun n => by rw [r3]; exact h.val n,
-    by rw [r4]; exact h.fresh⟩⟩
+theorem sabs_pushBackNode {s : SSt} {a : SA} (h : SAbsO O s a) {e : Nat} (he : e < a.fresh)
+    (hm : e ∉ a.seq) (heO : ¬ O e) :
+    ∃ s', s.pushBackNode e = some s' ∧ SAbsO O s' { a with seq := a.seq ++ [e] } ∧
+      ∀ n, O n → s'.next.get n = s.next.get n := by
+  obtain ⟨s', r1, r2, r3, r4, r5⟩ := pushBackNode_sinv e h.inv hm (h.clean e hm heO)
+  refine ⟨s', r1, ⟨r2, fun x hx => ?_, fun n hn hO => ?_, fun x hx => ?_, h.oalloc,
+    fun n => by rw [r3]; exact h.val n, by rw [r4]; exact h.fresh⟩, fun n hn => ?_⟩
   · simp only [List.mem_append, List.mem_singleton] at hx
     rcases hx with hx | rfl
     · exact h.alloc x hx
     · exact he
-  · rw [r5 n hn]; exact h.clean n (fun hh => hn (by simp [hh]))
+  · rw [r5 n hn]; exact h.clean n (fun hh => hn (by simp [hh])) hO
+  · simp only [List.mem_append, List.mem_singleton] at hx
+    rcases hx with hx | rfl
+    · exact h.disj x hx
+    · exact heO
+  · refine r5 n (fun hh => ?_)
+    simp only [List.mem_append, List.mem_singleton] at hh
+    rcases hh with hh | rfl
+    · exact h.disj n hh hn
+    · exact heO hn
 
 /-- `seq = take k ++ seq[k] :: drop (k+1)` -/
 theorem split_at {L : List Nat} {k : Nat} (hk : k < L.length) :
@@ -158,16 +206,29 @@ theorem split_at {L : List Nat} {k : Nat} (hk : k < L.length) :
   rw [List.drop_eq_getElem_cons hk] at this
   exact this.symm
 
+theorem succOf_not_mem (e : Nat) : ∀ L : List Nat, e ∉ L → succOf e L = none := by
+  intro L
+  induction L with
+  | nil => intro _; rfl
+  | cons x xs ih =>
+    intro hh
+    simp only [List.mem_cons, not_or] at hh
+    simp [succOf, Ne.symm hh.1, ih hh.2]
+
 /-! ### one call -/
 
-theorem sapply_refines {s : SSt} {a : SA} (h : SAbs s a) (op : SOp) (hok : op.ok a) :
-    ∃ s', s.apply op = some (s', (a.apply op).2) ∧ SAbs s' (a.apply op).1 := by
+/-- One-step simulation for one list of a family: same result as the specification, the
+invariant is preserved, **and no `next` link of a node of another list is written** (frame). -/
+theorem sapply_refinesO {s : SSt} {a : SA} (h : SAbsO O s a) (op : SOp) (hok : op.okO O a) :
+    ∃ s', s.apply op = some (s', (a.apply op).2) ∧ SAbsO O s' (a.apply op).1 ∧
+      (∀ n, O n → s'.next.get n = s.next.get n) ∧ a.fresh ≤ (a.apply op).1.fresh := by
   cases op with
   | new v =>
-    obtain ⟨g1, g2⟩ := sabs_alloc h v
-    exact ⟨(s.alloc v).1, by simp only [SSt.apply, SA.apply]; rw [← g2], g1⟩
+    obtain ⟨g1, g2, g3⟩ := sabs_alloc h v
+    exact ⟨(s.alloc v).1, by simp only [SSt.apply, SA.apply]; rw [← g2], g1, fun n _ => by rw [g3],
+      Nat.le_succ _⟩
   | get i =>
-    exact ⟨s, by simp [SSt.apply, SA.apply, getAt_sinv h.inv i], h⟩
+    exact ⟨s, by simp [SSt.apply, SA.apply, getAt_sinv h.inv i], h, fun _ _ => rfl, Nat.le_refl _⟩
   | remove i =>
     by_cases hr : 0 ≤ i ∧ i < (a.seq.length : Int)
     · have hk : i.toNat < a.seq.length := by omega
@@ -179,11 +240,11 @@ theorem sapply_refines {s : SSt} {a : SA} (h : SAbs s a) (op : SOp) (hok : op.ok
       rw [← hsplit] at r4
       have herase : a.seq.eraseIdx i.toNat = a.seq.take i.toNat ++ a.seq.drop (i.toNat + 1) :=
         List.eraseIdx_eq_take_drop_succ _ _
-      refine ⟨s', ?_, ?_⟩
+      refine ⟨s', ?_, ?_, fun n hn => r4 n (fun hh => h.disj n hh hn), ?_⟩
       · simp only [SSt.apply, SA.apply, r1, if_pos hr, Option.map_some, List.getElem?_eq_getElem hk]
       · simp only [SA.apply, if_pos hr]
-        refine ⟨by rw [herase]; exact r2, fun x hx => ?_, fun n hn => ?_, fun n => by rw [r5]; exact h.val n,
-          by rw [r6]; exact h.fresh⟩
+        refine ⟨by rw [herase]; exact r2, fun x hx => ?_, fun n hn hO => ?_, fun x hx => ?_, h.oalloc,
+          fun n => by rw [r5]; exact h.val n, by rw [r6]; exact h.fresh⟩
         · exact h.alloc x (List.mem_of_mem_eraseIdx hx)
         · by_cases hnx : n = a.seq[i.toNat]
           · rw [hnx]; exact r3
@@ -198,15 +259,18 @@ theorem sapply_refines {s : SSt} {a : SA} (h : SAbs s a) (op : SOp) (hok : op.ok
               · exact Or.inl hh
               · exact absurd hh hnx
               · exact Or.inr hh
-            rw [r4 n this]; exact h.clean n this
-    · refine ⟨s, ?_, ?_⟩
+            rw [r4 n this]; exact h.clean n this hO
+        · exact h.disj x (List.mem_of_mem_eraseIdx hx)
+      · simp only [SA.apply, if_pos hr]; exact Nat.le_refl _
+    · refine ⟨s, ?_, ?_, fun _ _ => rfl, ?_⟩
       · simp only [SSt.apply, SA.apply, removeAt_out h.inv i hr, if_neg hr, Option.map_some]
       · simp only [SA.apply, if_neg hr]; exact h
+      · simp only [SA.apply, if_neg hr]; exact Nat.le_refl _
   | removeFront =>
     have hrf := removeFront_sinv h.inv
     cases hL : a.seq with
     | nil =>
-      refine ⟨s, ?_, ?_⟩
+      refine ⟨s, ?_, ?_, fun _ _ => rfl, Nat.le_refl _⟩
       · simp only [SSt.apply, SA.apply, hrf.1 hL, hL, Option.map_some, List.head?_nil]
       · simp only [SA.apply, hL, List.tail_nil]
         have : a = { a with seq := [] } := by cases a; simp at hL; simp [hL]
@@ -215,48 +279,59 @@ theorem sapply_refines {s : SSt} {a : SA} (h : SAbs s a) (op : SOp) (hok : op.ok
       obtain ⟨s', r1, r2, r3, r4, r5, r6⟩ := hrf.2 x xs hL
       have hnd := h.inv.nodup
       rw [hL] at hnd
-      refine ⟨s', ?_, ?_⟩
+      have hxO : ¬ O x := h.disj x (by rw [hL]; simp)
+      refine ⟨s', ?_, ?_, fun n hn => r6 n (fun hh => hxO (hh ▸ hn)), Nat.le_refl _⟩
       · simp only [SSt.apply, SA.apply, r1, hL, Option.map_some, List.head?_cons]
       · simp only [SA.apply, hL, List.tail_cons]
-        refine ⟨r2, fun y hy => h.alloc y (by rw [hL]; simp [hy]), fun n hn => ?_,
+        refine ⟨r2, fun y hy => h.alloc y (by rw [hL]; simp [hy]), fun n hn hO => ?_,
+          fun y hy => h.disj y (by rw [hL]; simp [hy]), h.oalloc,
           fun n => by rw [r4]; exact h.val n, by rw [r5]; exact h.fresh⟩
         by_cases hnx : n = x
         · rw [hnx]; exact r3
-        · rw [r6 n hnx]; exact h.clean n (by rw [hL]; simp [hnx, hn])
+        · rw [r6 n hnx]; exact h.clean n (by rw [hL]; simp [hnx, hn]) hO
   | pushFront v =>
-    obtain ⟨g1, g2⟩ := sabs_alloc h v
+    obtain ⟨g1, g2, g3⟩ := sabs_alloc h v
     have he : a.fresh < (a.allocV v).fresh := Nat.lt_succ_self _
     have hm : a.fresh ∉ (a.allocV v).seq := fun hh => Nat.lt_irrefl _ (h.alloc _ hh)
-    have := sabs_pushFrontNode g1 he hm
-    refine ⟨s.pushFront v, rfl, ?_⟩
-    simp only [SSt.pushFront, SA.apply]
-    rw [show (s.alloc v) = ((s.alloc v).1, (s.alloc v).2) from rfl, g2]
-    exact this
+    have hO : ¬ O a.fresh := fun hh => Nat.lt_irrefl _ (h.oalloc _ hh)
+    obtain ⟨r2, r3⟩ := sabs_pushFrontNode g1 he hm hO
+    refine ⟨s.pushFront v, rfl, ?_, ?_, Nat.le_succ _⟩
+    · simp only [SSt.pushFront, SA.apply]
+      rw [show (s.alloc v) = ((s.alloc v).1, (s.alloc v).2) from rfl, g2]
+      exact r2
+    · intro n hn
+      simp only [SSt.pushFront]
+      rw [show (s.alloc v) = ((s.alloc v).1, (s.alloc v).2) from rfl, g2]
+      rw [r3 n hn, g3]
   | pushBack v =>
-    obtain ⟨g1, g2⟩ := sabs_alloc h v
+    obtain ⟨g1, g2, g3⟩ := sabs_alloc h v
     have he : a.fresh < (a.allocV v).fresh := Nat.lt_succ_self _
     have hm : a.fresh ∉ (a.allocV v).seq := fun hh => Nat.lt_irrefl _ (h.alloc _ hh)
-    obtain ⟨s', r1, r2⟩ := sabs_pushBackNode g1 he hm
-    refine ⟨s', ?_, r2⟩
+    have hO : ¬ O a.fresh := fun hh => Nat.lt_irrefl _ (h.oalloc _ hh)
+    obtain ⟨s', r1, r2, r3⟩ := sabs_pushBackNode g1 he hm hO
+    refine ⟨s', ?_, r2, fun n hn => by rw [r3 n hn, g3], Nat.le_succ _⟩
     simp only [SSt.apply, SSt.pushBack, SA.apply]
     rw [show (s.alloc v) = ((s.alloc v).1, (s.alloc v).2) from rfl, g2]
     simp only [r1, Option.map_some]
   | insertAt i v =>
-    obtain ⟨g1, g2⟩ := sabs_alloc h v
+    obtain ⟨g1, g2, g3⟩ := sabs_alloc h v
     have he : a.fresh < (a.allocV v).fresh := Nat.lt_succ_self _
     have hm : a.fresh ∉ (a.allocV v).seq := fun hh => Nat.lt_irrefl _ (h.alloc _ hh)
-    obtain ⟨s', r1, r2⟩ := sabs_insertNodeAt g1 i he hm
-    refine ⟨s', ?_, r2⟩
+    have hO : ¬ O a.fresh := fun hh => Nat.lt_irrefl _ (h.oalloc _ hh)
+    obtain ⟨s', r1, r2, r3⟩ := sabs_insertNodeAt g1 i he hm hO
+    refine ⟨s', ?_, r2, fun n hn => by rw [r3 n hn, g3], Nat.le_succ _⟩
     simp only [SSt.apply, SSt.insertAt, SA.apply]
     rw [show (s.alloc v) = ((s.alloc v).1, (s.alloc v).2) from rfl, g2]
     simp only [r1, Option.map_some]
-  | pushFrontNode e => exact ⟨s.pushFrontNode e, rfl, sabs_pushFrontNode h hok.1 hok.2⟩
+  | pushFrontNode e =>
+    obtain ⟨r2, r3⟩ := sabs_pushFrontNode h hok.1 hok.2.1 hok.2.2
+    exact ⟨s.pushFrontNode e, rfl, r2, r3, Nat.le_refl _⟩
   | pushBackNode e =>
-    obtain ⟨s', r1, r2⟩ := sabs_pushBackNode h hok.1 hok.2
-    exact ⟨s', by simp only [SSt.apply, SA.apply, r1, Option.map_some], r2⟩
+    obtain ⟨s', r1, r2, r3⟩ := sabs_pushBackNode h hok.1 hok.2.1 hok.2.2
+    exact ⟨s', by simp only [SSt.apply, SA.apply, r1, Option.map_some], r2, r3, Nat.le_refl _⟩
   | insertNodeAt i e =>
-    obtain ⟨s', r1, r2⟩ := sabs_insertNodeAt h i hok.1 hok.2
-    exact ⟨s', by simp only [SSt.apply, SA.apply, r1, Option.map_some], r2⟩
+    obtain ⟨s', r1, r2, r3⟩ := sabs_insertNodeAt h i hok.1 hok.2.1 hok.2.2
+    exact ⟨s', by simp only [SSt.apply, SA.apply, r1, Option.map_some], r2, r3, Nat.le_refl _⟩
   | swap i j =>
     by_cases hr : (0 ≤ i ∧ i < (a.seq.length : Int)) ∧ (0 ≤ j ∧ j < (a.seq.length : Int)) ∧ i ≠ j
     · obtain ⟨⟨hi0, hi1⟩, ⟨hj0, hj1⟩, hij⟩ := hr
@@ -265,12 +340,14 @@ theorem sapply_refines {s : SSt} {a : SA} (h : SAbs s a) (op : SOp) (hok : op.ok
       obtain ⟨s', r1, r2, r3, r4, r5⟩ := swap_in h.inv i.toNat j.toNat (by omega) hi hj
       rw [Int.toNat_of_nonneg hi0, Int.toNat_of_nonneg hj0] at r1
       have hcond : 0 ≤ i ∧ 0 ≤ j ∧ i ≠ j := ⟨hi0, hj0, hij⟩
-      refine ⟨s', ?_, ?_⟩
+      refine ⟨s', ?_, ?_, fun n _ => by rw [r3], ?_⟩
       · simp only [SSt.apply, SA.apply, r1, Option.map_some]
       · simp only [SA.apply, List.getElem?_eq_getElem hi, List.getElem?_eq_getElem hj, if_pos hcond]
-        refine ⟨r2, h.alloc, fun n hn => by rw [r3]; exact h.clean n hn, fun n => ?_,
-          by rw [r4]; exact h.fresh⟩
+        refine ⟨r2, h.alloc, fun n hn hO => by rw [r3]; exact h.clean n hn hO, h.disj, h.oalloc,
+          fun n => ?_, by rw [r4]; exact h.fresh⟩
         simp only [r5, IM.get_set, swapVals, h.val]
+      · simp only [SA.apply, List.getElem?_eq_getElem hi, List.getElem?_eq_getElem hj, if_pos hcond]
+        exact Nat.le_refl _
     · have hspec : (a.apply (.swap i j)).1 = a := by
         simp only [SA.apply]
         cases h1 : a.seq[i.toNat]? with
@@ -285,14 +362,16 @@ theorem sapply_refines {s : SSt} {a : SA} (h : SAbs s a) (op : SOp) (hok : op.ok
               intro hc; apply hr
               exact ⟨⟨hc.1, by omega⟩, ⟨hc.2.1, by omega⟩, hc.2.2⟩
             simp only [if_neg this]
-      refine ⟨s, ?_, by rw [hspec]; exact h⟩
+      refine ⟨s, ?_, by rw [hspec]; exact h, fun _ _ => rfl, by rw [hspec]; exact Nat.le_refl _⟩
       simp only [SSt.apply, swap_out h.inv i j hr, Option.map_some]
       rfl
-  | len => exact ⟨s, by simp only [SSt.apply, SA.apply, h.inv.len], h⟩
-  | front => exact ⟨s, by simp only [SSt.apply, SA.apply, chainTo_head h.inv.chain], h⟩
-  | back => exact ⟨s, by simp only [SSt.apply, SA.apply, h.inv.tail], h⟩
+  | len => exact ⟨s, by simp only [SSt.apply, SA.apply, h.inv.len], h, fun _ _ => rfl, Nat.le_refl _⟩
+  | front =>
+    exact ⟨s, by simp only [SSt.apply, SA.apply, chainTo_head h.inv.chain], h, fun _ _ => rfl,
+      Nat.le_refl _⟩
+  | back => exact ⟨s, by simp only [SSt.apply, SA.apply, h.inv.tail], h, fun _ _ => rfl, Nat.le_refl _⟩
   | next e =>
-    refine ⟨s, ?_, h⟩
+    refine ⟨s, ?_, h, fun _ _ => rfl, Nat.le_refl _⟩
     simp only [SSt.apply, SA.apply]
     by_cases hm : e ∈ a.seq
     · obtain ⟨p, q, e1, hp⟩ := split_of_mem hm
@@ -300,16 +379,18 @@ theorem sapply_refines {s : SSt} {a : SA} (h : SAbs s a) (op : SOp) (hok : op.ok
       rw [e1] at hc
       have := chainTo_head (chainTo_mid hc).2
       rw [this, e1, succOf_split e p q hp]
-    · rw [h.clean e hm]
-      have : ∀ L : List Nat, e ∉ L → succOf e L = none := by
-        intro L
-        induction L with
-        | nil => intro _; rfl
-        | cons x xs ih =>
-          intro hh
-          simp only [List.mem_cons, not_or] at hh
-          simp [succOf, Ne.symm hh.1, ih hh.2]
-      rw [this _ hm]
+    · rw [h.clean e hm hok, succOf_not_mem e _ hm]
+
+end
+
+theorem okO_of_ok {a : SA} {op : SOp} (h : op.ok a) : op.okO (fun _ => False) a := by
+  cases op <;> simp_all [SOp.ok, SOp.okO]
+
+/-- One list alone (no other list): the one-step simulation. -/
+theorem sapply_refines {s : SSt} {a : SA} (h : SAbs s a) (op : SOp) (hok : op.ok a) :
+    ∃ s', s.apply op = some (s', (a.apply op).2) ∧ SAbs s' (a.apply op).1 := by
+  obtain ⟨s', r1, r2, _⟩ := sapply_refinesO h op (okO_of_ok hok)
+  exact ⟨s', r1, r2⟩
 
 /-! ### operation lists -/
 
